@@ -177,3 +177,60 @@ func TestProbeFootnotes(t *testing.T) {
 	f.Before = &Pseudo{Tok: b.token(), Disp: "block"}
 	runDoc(t, "fn-before", b.doc(b.el("span", "", b.tk(), f)))
 }
+
+// Probes of the span attribute family (raw documents, observation only).
+func TestProbeSpans(t *testing.T) {
+	for _, src := range []string{
+		`<table><colgroup id=g span="2"></colgroup><tr><td>a</td></tr></table>`,
+		`<style>#g::before{content:"x"}</style><table><colgroup id=g span="2"></colgroup><tr><td>a</td></tr></table>`,
+		`<style>#g::before{content:"x";display:table-row}</style><table><colgroup id=g span="3"></colgroup><tr><td>a</td></tr></table>`,
+		`<style>#g::before{content:"x";display:table-column}</style><table><colgroup id=g span="3"></colgroup><tr><td>a</td></tr></table>`,
+		`<style>#g::after{content:"x";display:table-column}</style><table><colgroup id=g span="3"></colgroup><tr><td>a</td></tr></table>`,
+	} {
+		b, err := buildBoxes(src)
+		if err != nil {
+			t.Fatal(err)
+		}
+		t.Logf("%s\n   %s", src, dump(b.root))
+	}
+}
+
+// TestWriteSpanFinding (C09_WRITE_FINDINGS=span) writes the witness of the open finding met while the
+// span attribute family was added: <colgroup span=N> with generated content.
+func TestWriteSpanFinding(t *testing.T) {
+	if os.Getenv("C09_WRITE_FINDINGS") != "span" {
+		t.Skip("set C09_WRITE_FINDINGS=span")
+	}
+	b := newBuilder()
+	g := b.el("colgroup", "")
+	g.Attrs = map[string]string{"span": "3"}
+	g.Before = &Pseudo{Tok: b.token()}
+	t1 := b.el("table", "", g, b.el("tbody", "", b.el("tr", "", b.el("td", "", b.tk()), b.el("td", "", b.tk()), b.el("td", "", b.tk()))))
+	in := mkInput("finding", b.doc(t1))
+	raw, _ := json.Marshal(in)
+	res := fw.SafeCheck(fw.Get("C09"), raw)
+	if res.Verdict != fw.Violation || res.Sig != "colgroup-span-lost-to-generated-content" {
+		t.Fatalf("verdict %s sig %s", res.Verdict, res.Sig)
+	}
+	out, _ := json.MarshalIndent(struct {
+		Property string `json:"property"`
+		Msg      string `json:"msg"`
+		Input    Input  `json:"input"`
+	}{"C09", res.Sig + ": " + res.Msg, in}, "", " ")
+	if err := os.WriteFile("../../findings/C09/colgroup-span-lost-to-generated-content.json", append(out, '\n'), 0o644); err != nil {
+		t.Fatal(err)
+	}
+	t.Log(res.Msg)
+}
+
+func TestProbeSpans2(t *testing.T) {
+	for _, src := range []string{
+		`<table><colgroup id=g span="0"></colgroup><colgroup id=h><col id=c></colgroup><tr><td>a</td></tr></table>`,
+	} {
+		b, err := buildBoxes(src)
+		if err != nil {
+			t.Fatal(err)
+		}
+		t.Logf("%s\n   %s", src, dump(b.root))
+	}
+}
